@@ -1,13 +1,18 @@
 #!/bin/sh
-# run every recorded seeded change against the check(s) of the property it breaks; one line per seed
+# run recorded seeded changes against the check(s) of the property they break; one line per seed
+# usage: tools/seed_matrix.sh <out file> [seed dir names...]
 cd "$(dirname "$0")/.."
-OUT=${1:-/var/tmp/seedtry/matrix.txt}
+OUT=${1:-/var/tmp/seedtry/matrix.txt}; shift
+[ $# -eq 0 ] && set -- $(ls seeded)
 : > $OUT
-for D in seeded/*/; do
-  T=$(basename $D); P=${T%-*}
+for T in "$@"; do
+  P=${T%-*}
   PROPS="$P"
   [ "$P" = C06 ] && PROPS="C06 C02 C11"
-  R=$(timeout 3000 tools/try_seed.sh $PWD/$D/patch.diff m-$T $PROPS 2>&1 | grep -E "^===|VIOLATION|UNDECIDED|^OK" | sed -E 's/replay=[^ ]*\/([^\/ ]*)\.json/ob=\1/' | cut -c1-160 | tr '\n' '|')
+  [ "$T" = C02-4 ] && PROPS="C02 C09"
+  [ "$T" = C02-5 ] && PROPS="C02 C01"
+  [ "$T" = C09-6 ] && PROPS="C09 C02"
+  R=$(timeout 3000 tools/try_seed.sh $PWD/seeded/$T/patch.diff m-$T $PROPS 2>&1 | grep -E "^===|VIOLATION|UNDECIDED|^OK" | sed -E 's/replay=[^ ]*\/([^\/ ]*)\.json/ob=\1/' | cut -c1-160 | tr '\n' '|')
   echo "$T $R" >> $OUT
 done
 echo finished >> $OUT
